@@ -372,8 +372,10 @@ def specRootStep (cx : Ctx) (line : String) : Option SExp :=
     | "clone_from", [c, r, l] => do
       -- C20: afterwards the array equals the source (which the protocol guarantees to be a valid array)
       let c ← nat c; let r ← nat r; let l ← parseList l
-      pure (okState c r (l.map v) (some ["eq=1"]))
-    | "clone", [] => pure (okState C R data (some [toString C, toString R, fmtList data, "eq=1", "hasheq=1", "indep=1"]))
+      pure (okState c r (l.map v) (some [if (l.map v).all (fun x => cx.elem.eqα x x) then "eq=1" else "eq=0"]))
+    | "clone", [] =>
+      let refl := data.all fun x => cx.elem.eqα x x
+      pure (okState C R data (some [toString C, toString R, fmtList data, if refl then "eq=1" else "eq=0", "hasheq=1", "indep=1"]))
     | "clear", [] => pure (okState 0 0 [])
     | "swap_dimensions", [] => pure (okState R C data)
     | "shrink_to_fit", [] => pure (okState C R data)
